@@ -310,7 +310,10 @@ class CombineLatestRemoveUpstream(IndexedInputs, TopoBase):
         return selfv, [up], {}
 
     def summaries(self):
-        return {}
+        def refs(I, recv, args, kwargs):
+            # _retain_refs / _release_refs (own contracts: c_emit.py): they change reference counts, never the node's slots
+            return NONE
+        return {'Stream._release_refs': refs, 'Stream._retain_refs': refs}
 
     def spec_funcs(self):
         d = TopoBase.spec_funcs(self)
